@@ -358,6 +358,14 @@ impl DnsEntry {
             cache_flush: (class & CLASS_CACHE_FLUSH) != 0,
         }
     }
+
+    /// Returns whether `other` has the same name, type and class.
+    ///
+    /// The cache-flush bit is not part of the class (RFC 6762 section 10.2):
+    /// goodbyes and known answers may come without it.
+    fn matches(&self, other: &Self) -> bool {
+        self.name == other.name && self.ty == other.ty && self.class == other.class
+    }
 }
 
 /// Common methods for all DNS entries:  questions and resource records.
@@ -746,7 +754,7 @@ impl DnsRecordExt for DnsAddress {
     fn matches(&self, other: &dyn DnsRecordExt) -> bool {
         if let Some(other_a) = other.any().downcast_ref::<Self>() {
             return self.address == other_a.address
-                && self.record.entry == other_a.record.entry
+                && self.record.entry.matches(&other_a.record.entry)
                 && self.interface_id == other_a.interface_id;
         }
         false
@@ -817,7 +825,8 @@ impl DnsRecordExt for DnsPointer {
 
     fn matches(&self, other: &dyn DnsRecordExt) -> bool {
         if let Some(other_ptr) = other.any().downcast_ref::<Self>() {
-            return self.alias == other_ptr.alias && self.record.entry == other_ptr.record.entry;
+            return self.alias == other_ptr.alias
+                && self.record.entry.matches(&other_ptr.record.entry);
         }
         false
     }
@@ -919,7 +928,7 @@ impl DnsRecordExt for DnsSrv {
                 && self.port == other_svc.port
                 && self.weight == other_svc.weight
                 && self.priority == other_svc.priority
-                && self.record.entry == other_svc.record.entry;
+                && self.record.entry.matches(&other_svc.record.entry);
         }
         false
     }
@@ -1032,7 +1041,8 @@ impl DnsRecordExt for DnsTxt {
 
     fn matches(&self, other: &dyn DnsRecordExt) -> bool {
         if let Some(other_txt) = other.any().downcast_ref::<Self>() {
-            return self.text == other_txt.text && self.record.entry == other_txt.record.entry;
+            return self.text == other_txt.text
+                && self.record.entry.matches(&other_txt.record.entry);
         }
         false
     }
@@ -1259,7 +1269,7 @@ impl DnsRecordExt for DnsHostInfo {
         if let Some(other_hinfo) = other.any().downcast_ref::<Self>() {
             return self.cpu == other_hinfo.cpu
                 && self.os == other_hinfo.os
-                && self.record.entry == other_hinfo.record.entry;
+                && self.record.entry.matches(&other_hinfo.record.entry);
         }
         false
     }
@@ -1374,7 +1384,7 @@ impl DnsRecordExt for DnsNSec {
         if let Some(other_record) = other.any().downcast_ref::<Self>() {
             return self.next_domain == other_record.next_domain
                 && self.type_bitmap == other_record.type_bitmap
-                && self.record.entry == other_record.record.entry;
+                && self.record.entry.matches(&other_record.record.entry);
         }
         false
     }
